@@ -1,6 +1,192 @@
 /-
 Invariants of M-Precond used by C13 (who holds second-order data; which groups carry traffic).
-(Single Mathlib modules may be imported; never `import Mathlib`.)
+The definitions of the C13 statements live here (moved verbatim from Props/C13.lean); the machinery
+is in Lemmas/HoldingsReach.lean (primitive moves and their invariants), Lemmas/HoldingsWalk.lean
+(every operation is a sequence of primitive moves) and Lemmas/HoldingsEst.lean (the first step
+makes every gradient worker hold second-order data).  Core Lean only.
 -/
-import KfacVerif.Lemmas.SchedBase
+import KfacVerif.Lemmas.HoldingsEst
 
+namespace KV.C13
+open KV KV.Precond
+
+/-- histories of the statement: construction followed by training passes, steps, eval passes,
+    reset_batch, memory queries, state_dict and scheduler changes (no checkpoint load: loading
+    recomputes second-order data on every rank, which is outside C13) -/
+def noLoad : List Op → Prop
+  | [] => True
+  | .saveLoad _ _ :: _ => False
+  | _ :: t => noLoad t
+
+def hasStep : List Op → Bool
+  | [] => false
+  | .step :: _ => true
+  | _ :: t => hasStep t
+
+structure AsgOK (c : Cfg) : Prop where
+  workers_lt : ∀ l r, r ∈ c.asg.workers l → r < c.world
+  invA_mem : ∀ l, c.asg.invA l ∈ c.asg.workers l
+  invG_mem : ∀ l, c.asg.invG l ∈ c.asg.workers l
+  /-- without inverse broadcasts (MEM-OPT) the inverse worker is the only gradient worker -/
+  nobi_single : c.asg.bcastInv = false → ∀ l, c.asg.workers l = [c.asg.invA l] ∧ c.asg.invG l = c.asg.invA l
+
+/-- the three kinds of traffic -/
+def isFactorTraffic (c : Cfg) (m : List Nat) (d : Desc) : Prop :=
+  d.kind = .allreduce ∧ m = worldRanks c ∧ d.esize = c.fe
+def isInverseTraffic (c : Cfg) (m : List Nat) (d : Desc) : Prop :=
+  d.kind = .broadcast ∧ d.esize = c.ie ∧ ∃ l, m = c.asg.workers l ∧ (d.root = c.asg.invA l ∨ d.root = c.asg.invG l)
+def isGradTraffic (c : Cfg) (m : List Nat) (d : Desc) : Prop :=
+  d.kind = .broadcast ∧ d.esize = c.ge ∧ ∃ r0 l, m = c.asg.recv r0 ∧ d.root = c.asg.src r0 l ∧
+    d.elems = (c.layers.getD l ⟨0, 0⟩).gDim * (c.layers.getD l ⟨0, 0⟩).aDim
+
+/-! ### bridges -/
+
+theorem AsgOK.toH {c : Cfg} (hc : AsgOK c) : HR.AsgH c :=
+  ⟨hc.workers_lt, hc.invA_mem, hc.invG_mem, hc.nobi_single⟩
+
+theorem noLoad_isLoad : ∀ {ops : List Op}, noLoad ops → ∀ op ∈ ops, HR.isLoad op = false
+  | [], _, op, ho => by cases ho
+  | o :: t, h, op, ho => by
+    have ht : HR.isLoad o = false ∧ noLoad t := by
+      cases o <;> simp only [noLoad] at h <;> first | exact ⟨rfl, h⟩ | exact h.elim
+    rcases List.mem_cons.mp ho with rfl | ho
+    · exact ht.1
+    · exact noLoad_isLoad ht.2 op ho
+
+theorem hasStep_isStep : ∀ {ops : List Op}, hasStep ops = true → ∃ op ∈ ops, HR.isStep op = true
+  | [], h => by cases h
+  | o :: t, h => by
+    cases o with
+    | step => exact ⟨.step, by simp, rfl⟩
+    | fwdBwd b => obtain ⟨op, ho, hs⟩ := hasStep_isStep (ops := t) h; exact ⟨op, by simp [ho], hs⟩
+    | resetBatch => obtain ⟨op, ho, hs⟩ := hasStep_isStep (ops := t) h; exact ⟨op, by simp [ho], hs⟩
+    | memUsage => obtain ⟨op, ho, hs⟩ := hasStep_isStep (ops := t) h; exact ⟨op, by simp [ho], hs⟩
+    | save f => obtain ⟨op, ho, hs⟩ := hasStep_isStep (ops := t) h; exact ⟨op, by simp [ho], hs⟩
+    | saveLoad f ci => obtain ⟨op, ho, hs⟩ := hasStep_isStep (ops := t) h; exact ⟨op, by simp [ho], hs⟩
+    | setHyper hy => obtain ⟨op, ho, hs⟩ := hasStep_isStep (ops := t) h; exact ⟨op, by simp [ho], hs⟩
+
+/-! ### who holds second-order data -/
+
+theorem only_workers (c : Cfg) (hc : AsgOK c) (h : Hyper) (ops : List Op) (hn : noLoad ops)
+    (r l : Nat) (hh : holdsSecondOrder c (run c (St.init c h) ops) r l = true) :
+    r ∈ c.asg.workers l := by
+  have rr := HR.R.run_noload hc.toH.invMem (St.init c h) ops (noLoad_isLoad hn)
+  have h0 : HR.NW c (St.init c h) := by
+    intro r' l' _
+    rw [HR.getL_init]
+    exact HR.soNone_empty
+  have hfin : HR.NW c (run c (St.init c h) ops) := rr.inv _ (fun _ _ p => p.nw) h0
+  apply Classical.byContradiction
+  intro hr
+  obtain ⟨a1, a2, a3, a4, a5, a6, a7⟩ := hfin r l hr
+  unfold holdsSecondOrder at hh
+  cases hm : c.method <;> simp [hm, a1, a2, a3, a4, a5, a6, a7] at hh
+
+theorem workers_hold (c : Cfg) (hc : AsgOK c) (h : Hyper) (ops : List Op) (hn : noLoad ops)
+    (hs : hasStep ops = true) (hne : (run c (St.init c h) ops).err = none)
+    (r l : Nat) (hl : l < c.layers.length) (hr : r ∈ c.asg.workers l) :
+    holdsSecondOrder c (run c (St.init c h) ops) r l = true := by
+  have := HR.est_run hc.toH hl r hr ops (St.init c h) (HR.Shape.init c h) rfl (noLoad_isLoad hn)
+    (hasStep_isStep hs) hne
+  unfold HR.hq at this
+  unfold holdsSecondOrder
+  cases hm : c.method <;> simp [hm] at this ⊢ <;> simp [this]
+
+/-! ### traffic -/
+
+theorem mem_acts {s : St} {a : GAct} : a ∈ s.acts ↔ a ∈ s.script := by simp [St.acts]
+
+/-- every issue of any history comes from one of the four issuing sites; when no bucket can be
+    open (un-bucketed, or a world of one) the flush site is never reached with a non-empty bucket -/
+theorem issue_sites (c : Cfg) (h : Hyper) (ops : List Op) (Q : List Nat → Desc → Prop)
+    (hQ : ∀ b m d, HR.IssueOK c b m d → (HR.NB c → b = []) → Q m d)
+    (m : List Nat) (d : Desc) (hm : GAct.issue m d ∈ (run c (St.init c h) ops).acts) : Q m d := by
+  have h0 : HR.BInv c Q (St.init c h) := ⟨fun _ => rfl, fun m d hm => by simp [St.init] at hm⟩
+  exact ((HR.R.run_any (St.init c h) ops).binv hQ h0).2 m d (mem_acts.mp hm)
+
+theorem classified (c : Cfg) (h : Hyper) (ops : List Op) (m : List Nat) (d : Desc)
+    (hm : GAct.issue m d ∈ (run c (St.init c h) ops).acts) :
+    isFactorTraffic c m d ∨ isInverseTraffic c m d ∨ isGradTraffic c m d := by
+  refine issue_sites c h ops
+    (fun m d => isFactorTraffic c m d ∨ isInverseTraffic c m d ∨ isGradTraffic c m d) ?_ m d hm
+  intro b m d hi _
+  cases hi with
+  | flush _ => exact Or.inl ⟨rfl, rfl, rfl⟩
+  | red l isA _ _ _ => exact Or.inl ⟨rfl, rfl, rfl⟩
+  | inv l src elems _ _ hsrc => exact Or.inr (Or.inl ⟨rfl, rfl, l, rfl, hsrc⟩)
+  | grad r0 l _ _ _ => exact Or.inr (Or.inr ⟨rfl, rfl, r0, l, rfl, rfl, rfl⟩)
+
+theorem no_inverse (c : Cfg) (hb : c.asg.bcastInv = false) (h : Hyper) (ops : List Op)
+    (m : List Nat) (d : Desc) (hm : GAct.issue m d ∈ (run c (St.init c h) ops).acts) :
+    isFactorTraffic c m d ∨ isGradTraffic c m d := by
+  refine issue_sites c h ops (fun m d => isFactorTraffic c m d ∨ isGradTraffic c m d) ?_ m d hm
+  intro b m d hi _
+  cases hi with
+  | flush _ => exact Or.inl ⟨rfl, rfl, rfl⟩
+  | red l isA _ _ _ => exact Or.inl ⟨rfl, rfl, rfl⟩
+  | inv l src elems hb' _ _ => rw [hb] at hb'; cases hb'
+  | grad r0 l _ _ _ => exact Or.inr ⟨rfl, rfl, r0, l, rfl, rfl, rfl⟩
+
+theorem no_gradient (c : Cfg) (hb : c.asg.bcastGrad = false) (h : Hyper) (ops : List Op)
+    (m : List Nat) (d : Desc) (hm : GAct.issue m d ∈ (run c (St.init c h) ops).acts) :
+    isFactorTraffic c m d ∨ isInverseTraffic c m d := by
+  refine issue_sites c h ops (fun m d => isFactorTraffic c m d ∨ isInverseTraffic c m d) ?_ m d hm
+  intro b m d hi _
+  cases hi with
+  | flush _ => exact Or.inl ⟨rfl, rfl, rfl⟩
+  | red l isA _ _ _ => exact Or.inl ⟨rfl, rfl, rfl⟩
+  | inv l src elems _ _ hsrc => exact Or.inr ⟨rfl, rfl, l, rfl, hsrc⟩
+  | grad r0 l hb' _ _ => rw [hb] at hb'; cases hb'
+
+theorem allreduce_elems (c : Cfg) (hu : c.bucketed = false) (h : Hyper) (ops : List Op)
+    (m : List Nat) (d : Desc) (hm : GAct.issue m d ∈ (run c (St.init c h) ops).acts)
+    (hk : d.kind = .allreduce) :
+    ∃ l, l < c.layers.length ∧
+      (d.elems = triElems (c.layers.getD l ⟨0, 0⟩).aDim c.symAware ∨
+       d.elems = triElems (c.layers.getD l ⟨0, 0⟩).gDim c.symAware) := by
+  refine issue_sites c h ops (fun m d => d.kind = .allreduce → ∃ l, l < c.layers.length ∧
+      (d.elems = triElems (c.layers.getD l ⟨0, 0⟩).aDim c.symAware ∨
+       d.elems = triElems (c.layers.getD l ⟨0, 0⟩).gDim c.symAware)) ?_ m d hm hk
+  intro b m d hi hb
+  cases hi with
+  | flush hne => exact absurd (hb (Or.inl hu)) hne
+  | red l isA _ _ hl =>
+    intro _
+    cases isA
+    · exact ⟨l, hl, Or.inr rfl⟩
+    · exact ⟨l, hl, Or.inl rfl⟩
+  | inv l src elems _ _ _ => intro hk; cases hk
+  | grad r0 l _ _ _ => intro hk; cases hk
+
+/-- `world_one_silent` with the hypothesis on the gradient-worker groups strengthened from
+    `length ≤ 1` to `length = 1` (an EMPTY group does issue a broadcast: `bcastField` only skips
+    groups of exactly one member) -/
+theorem world_one_silent' (c : Cfg) (hw : c.world = 1) (hwk : ∀ l, (c.asg.workers l).length = 1)
+    (hrv : ∀ r, (c.asg.recv r).length ≤ 1) (h : Hyper) (ops : List Op) :
+    ∀ a ∈ (run c (St.init c h) ops).acts, ∀ m d, a ≠ GAct.issue m d := by
+  intro a ha m d e
+  subst e
+  refine issue_sites c h ops (fun _ _ => False) ?_ m d ha
+  intro b m d hi hb
+  cases hi with
+  | flush hne => exact absurd (hb (Or.inr hw)) hne
+  | red l isA _ hw' _ => exact hw' hw
+  | inv l src elems _ hlen _ => exact hlen (hwk l)
+  | grad r0 l _ hlen hhead =>
+    have h1 := hrv r0
+    cases hrc : c.asg.recv r0 with
+    | nil => rw [hrc] at hhead; cases hhead
+    | cons x t => rw [hrc] at hlen h1; simp only [List.length_cons] at hlen h1; omega
+
+/-! ### sizes -/
+
+theorem tri (n : Nat) : triElems n true = n * (n + 1) / 2 ∧ triElems n false = n * n := ⟨rfl, rfl⟩
+
+theorem mem_total' (c : Cfg) (s : St) (r : Nat) :
+    ((memBytes c s r).find? (·.1 == "total")).map (·.2) =
+      some ((((memBytes c s r).filter (·.1 != "total")).map (·.2)).sum) := by
+  unfold memBytes
+  simp [List.find?, List.filter]
+  omega
+
+end KV.C13
